@@ -78,6 +78,30 @@ def one_case(ctx: Ctx, stream: str, i: int) -> None:
             spec = tuple(spec_axes) if rng.random() < 0.7 else list(spec_axes)
         vshape = tuple((xshape[a] if xshape[a] != 1 or rng.random() < 0.5 else rng.choice([2, 3])) if rng.random() < 0.85 else 1
                        for a in axes_pos)
+    elif kind < 0.7 and not strict:
+        # explicit tuples, in ANY order, that extend the leaf on the right (axes ≥ rank) or on the left (axes < -rank)
+        # while the other axes stay inside it, with compatible sizes: the leaf gets trailing / leading length-1 axes
+        ext = rng.choice([1, 1, 2])
+        if rng.random() < 0.7:
+            pool = list(range(xrank + ext))
+            axes_sel = rng.sample(pool, min(vrank, len(pool)))
+            if all(a < xrank for a in axes_sel):
+                axes_sel[rng.randrange(len(axes_sel))] = xrank + ext - 1
+            if len(set(axes_sel)) != len(axes_sel):
+                axes_sel = list(dict.fromkeys(axes_sel))
+            vshape = tuple((xshape[a] if rng.random() < 0.85 else 1) if a < xrank else rng.choice(DIMS) for a in axes_sel)
+            spec = tuple(axes_sel)
+        else:
+            pool = list(range(-xrank - ext, 0))
+            axes_sel = rng.sample(pool, min(vrank, len(pool)))
+            if all(a >= -xrank for a in axes_sel):
+                axes_sel[rng.randrange(len(axes_sel))] = -xrank - ext
+            if len(set(axes_sel)) != len(axes_sel):
+                axes_sel = list(dict.fromkeys(axes_sel))
+            vshape = tuple((xshape[a + xrank] if rng.random() < 0.85 else 1) if a >= -xrank else rng.choice(DIMS)
+                           for a in axes_sel)
+            spec = tuple(axes_sel)
+        vrank = len(vshape)
     elif kind < 0.8:
         # broadcasting beyond the leaf rank (left or right), BroadcastDiagonalOperator only
         vshape = tuple(rng.sample(DIMS, vrank))
